@@ -7,6 +7,18 @@ CHECKS = {
  "C05": dict(technique="Coq proof (theorems over the server election model + over isNewMaster regenerated from server.go) + model/implementation correspondence via vm_compute",
              text="Theorems for all histories/ids: regenerated isNewMaster = 128-bit order, reported id = running maximum, primary = latest not-lower announcer; model tied to /repo by differential runs over the boundary lattice and random multi-session scripts; model-free oracle recomputes the running maximum.",
              ref="DESIGN.md 4/C05", note=TB + " Each scripted message is atomic (interleavings of concurrent announcements: C11)."),
+ "C01": dict(technique="Coq proof: refinement of the RIB model to a finite-map spec by induction over histories and cascades (any map order) + model/implementation correspondence via vm_compute",
+             text="Theorems for all histories, keys, payloads, instances and cascade orders: installed tables = fold of the acknowledgement log (ADD/REPLACE replace wholly, DELETE removes exactly its key, FAILED/held leave no trace); RIB model tied to rib.go by differential histories (oks sequence, fails, held ids, final tables+counters); model-free oracle folds the implementation's own acks.",
+             ref="DESIGN.md 4/C01", note=TB + " RIB-level calls are sequential; ygot schema validation is modelled by a validity bit / label range."),
+ "C03": dict(technique="Coq proof: counter invariant RC by induction over histories and cascades (any map order), verdict theorems as corollaries + correspondence via vm_compute",
+             text="Theorems: in every reachable state each reference counter equals the number of installed referrers; hence DELETE of a group/next-hop fails iff installed and referenced, every other DELETE succeeds, verdict depends on tables only. Tied to rib.go by differential histories comparing the real counters (hook) and verdicts; model-free oracle recounts referrers and probes deletes.",
+             ref="DESIGN.md 4/C03", note=TB + " Counters read through the add-only hook VerifRefCounts."),
+ "C17": dict(technique="Coq proof: iff-specifications of every chk helper over a model of chk.go + correspondence via vm_compute",
+             text="Theorems for all result lists / Get responses / errors / wants / options: each helper passes iff the wanted item is present under the documented ignore rules; cached checker sound, complete under unique keys; no entry kind skipped. Model tied to chk.go by running the real helpers with a capturing testing.TB on generated inputs; model-free oracle searches the wanted item directly.",
+             ref="DESIGN.md 4/C17", note=TB),
+ "C18": dict(technique="Coq proof: last-call-wins / append specifications of the fluent builders and client id/election stamping over a model of fluent.go + correspondence via vm_compute",
+             text="Theorems for all programs of builder and client calls: every emitted field is the argument of the last call that sets it (append semantics where the code appends), nothing else present; ids 1,2,3,...; op type; election stamp. Model tied to fluent.go by executing generated programs through the real API against a recording stub; aliasing clause checked on the implementation.",
+             ref="DESIGN.md 4/C18", note=TB + " The aliasing clause (later builder calls never alter queued messages) has no counterpart in a pure model and is checked on the implementation only."),
 }
 NA = []
 m = {"version": 1,
